@@ -468,3 +468,53 @@ C("unbalanced paren", "int", "return (1 + 2", SYNTAX)
 C("bad token", "int", "return 1 # 2", SYNTAX)
 C("missing brace", "int", "if true { return 1 ", SYNTAX)
 C("else on new line", "int", "if true { return 1 }\nelse { return 2 }", SYNTAX)
+
+# ---------------------------------------------------------------- more evaluation-order / aliasing probes
+_CNT = ("var cnt int\nfunc next() int { cnt++; return cnt }\nvar gs = []int{0, 0, 0, 0}\nvar calls int\n"
+        "func sl() []int { calls++; return gs }\n")
+C("op-assign target evaluated once", "int", "sl()[next()] += 5; return calls*100 + cnt*10 + gs[1]", 115, _CNT)
+C("loop condition re-evaluated", "int", "n := 0; for next() < 4 { n++ }; return n*10 + cnt", 34, _CNT)
+C("args left to right", "int", "return sub(next(), next())", -1, _CNT + "func sub(a, b int) int { return a - b }")
+C("index then value order", "int", "gs[next()] = next(); return gs[1]", 2, _CNT)
+C("array swap", "int", "a, b := [2]int{1, 2}, [2]int{3, 4}; a, b = b, a; return a[0]*1000 + a[1]*100 + b[0]*10 + b[1]", 3412)
+C("struct with slice shares backing", "int", "a := H{[]int{1}}; b := a; b.s[0] = 7; return a.s[0]", 7, "type H struct{ s []int }")
+C("struct conversion copies", "int", "a := A1{1}; b := B1(a); b.X = 5; return a.X", 1, "type A1 struct{ X int }\ntype B1 struct{ X int }")
+C("2d array to func", "int", "a := [2][2]int{{1, 2}, {3, 4}}; z(a); return a[1][1]", 4, "func z(a [2][2]int) { a[1][1] = 0 }")
+C("2d array via pointer", "int", "a := [2][2]int{{1, 2}, {3, 4}}; zp(&a); return a[1][1]", 0, "func zp(a *[2][2]int) { a[1][1] = 0 }")
+C("local shadows package func", "int", "next := 5; return next + 1", 6, _CNT)
+C("loop counter wraps", "int", "n := 0; for i := uint8(250); i != 4; i++ { n++ }; return n", 10)
+C("divide by negative const", "int", "x := 7; return x / -2 * 10 + x % -2", -29)
+C("interface == concrete", "bool", "var s Shape = Sq{2}; return s == Sq{2} && s != Sq{3}", True, _SH)
+C("switch on interface nil", "int", "var s Shape; switch s { case nil: return 1 }; return 0", 1, _SH)
+C("const ^0 into uint8", "uint8", "var x uint8 = ^0; return x", COMPILE("overflows"))
+C("^uint8(0)", "uint8", "return ^uint8(0)", 255)
+C("-c unsigned const", "uint8", "const c uint8 = 1; return -c", COMPILE("overflows"))
+C("named result boxed", "int", "return nb()", 7, "func set(p *int) { *p = 7 }\nfunc nb() (r int) { set(&r); return }")
+C("param boxed", "int", "p := pb(3); return *p", 3, "func pb(x int) *int { return &x }")
+C("len evaluates call operand", "int", "n := len(arr()); return n*10 + cnt", 31, "var cnt int\nfunc arr() [3]int { cnt++; return [3]int{} }")
+C("array of interfaces", "int", "a := [2]Shape{Sq{2}, &Rect{1, 3}}; return a[0].Area() + a[1].Area()", 7, _SH)
+C("string += in loop", "string", "s := \"\"; for i := 0; i < 3; i++ { s += \"ab\" }; return s", "ababab")
+C("deep recursion", "int", "return down(3000)", 3000, "func down(n int) int { if n == 0 { return 0 }; return 1 + down(n-1) }")
+C("walrus temp in nested index", "int", "m := [][]int{{1, 2}, {3, 4}}; m[1][0] += m[0][1]; return m[1][0]", 5)
+C("pointer to slice elem after append realloc", "int", "s := []int{1}; p := &s[0]; s = append(s, 2); *p = 9; return s[0]", 1)
+C("pointer to slice elem no realloc", "int", "s := make([]int, 1, 4); p := &s[0]; s = append(s, 2); *p = 9; return s[0]", 9)
+C("struct array field via pointer method", "int", "m := &Ms{}; m.Set(1, 200); m.Set(1, 100); return int(m.A[1])", 44,
+  "type Ms struct{ A [2]uint8 }\nfunc (m *Ms) Set(i int, v uint8) { m.A[i] += v }")
+C("generated BpSetByte shape", "int", "m := &Mg{}; m.BpSetByte(1, 8, 0xab); m.BpSetByte(1, 0, 0xcd); m.BpSetByte(0, 4, 0xff); return int(m.A[1])*256 + int(m.C)",
+  0xABCD * 256 + 0xF0,
+  "type Cg uint8\ntype Mg struct{ C Cg; A [2]uint16 }\nfunc (m *Mg) BpSetByte(f int, lshift int, b byte) { switch f { case 0: m.C |= (Cg(b) << lshift); case 1: m.A[f] |= (uint16(b) << lshift); default: return } }")
+C("generated BpGetByte shape", "int", "m := &Mg{-2}; return int(m.Get(8))*256 + int(m.Get(0))", 0xFFFE,
+  "type Mg struct{ W int16 }\nfunc (m *Mg) Get(rshift int) byte { return byte(m.W >> rshift) }")
+C("op-mode encode shape", "int", "m := &Mo{-3, true}; s := make([]byte, 2); s[0] |= (byte(m.Sv) << 1) & 62; s[0] |= (byte(b2b(bool(m.B)))) & 1; s[1] |= (byte(m.Sv>>8) >> 2) & 63; return int(s[0])*256 + int(s[1])",
+  (((0xFD << 1) & 62) | 1) * 256 + 63,
+  "type Bl bool\ntype Mo struct{ Sv int16; B Bl }\nfunc b2b(b bool) byte { if b { return 1 }; return 0 }")
+C("op-mode decode shape", "int64", "var w int64; s := []byte{0xff, 0x1f}; w |= int64(byte(s[0]>>6) & 3); w |= int64(byte(s[1]<<2) & 252); w |= int64(byte(s[1]>>6) & 3) << 8; w <<= 51; w >>= 51; return w",
+  (lambda v: v - (1 << 13) if v & (1 << 12) else v)((3 | ((0x1F << 2) & 252)) & 0x1FFF))
+C("target operands evaluated before rhs call", "int", "old := s; s[0] = grow(); return old[0]*10 + s[0]", 71,
+  "var s = []int{1}\nfunc grow() int { s = append(s, 0, 0, 0); return 7 }")
+C("field target evaluated before rhs call", "int", "old := p; p.X = swap(); return old.X*10 + p.X", 70,
+  "type P struct{ X int }\nvar p = &P{}\nfunc swap() int { p = &P{}; return 7 }")
+C("byte and uint8 identical", "int", "var a byte = 200; var b uint8 = a; var r rune = 'x'; var i int32 = r; return int(b) + int(i)", 320)
+C("method name mangling unambiguous", "int", "var a A_B; var b A; return a.C() + b.B_C()", 3,
+  "type A_B int\ntype A int\nfunc (A_B) C() int { return 1 }\nfunc (A) B_C() int { return 2 }")
+C("unicode identifiers", "int", "größe := 2; return größe * Überall(3)", 12, "func Überall(n int) int { return n * 2 }")
